@@ -24,3 +24,5 @@ LEVEL_NOTE = ("Proof about the Gallina model of dht.go/query.go/subscriber_notif
 
 def classify(desc, code):
     return None
+
+RULE = RULE + (' 40% of the protocol-loss reports concern a peer that is also no longer connected (and fails when dialled) at the moment the event is handled.')
